@@ -324,3 +324,11 @@ Theorem C11_tsig_missing_iff : forall m p tys e lim, RecordsAt m p tys e -> e <=
   (find_tsig fuel m p lim (N.of_nat (length tys)) = Err TE_MISSING <-> Forall (fun ty => ty <> RTYPE_TSIG) tys).
 Proof. exact find_tsig_missing_iff. Qed.
 Print Assumptions C11_tsig_missing_iff.
+
+(* a forwarder's message ID (RFC 8945 5.1) does not influence what verification
+   hands back: the original ID of the TSIG record is written into the header *)
+Theorem C11_forwarded_id_irrelevant : forall m x t, 12 <= mlen m ->
+  remove_tsig (set_id m x) t = remove_tsig m t /\
+  (forall out, remove_tsig m t = Ok out -> hdr_id out = mt_oid t \/ 65536 <= mt_oid t).
+Proof. exact forwarded_id_irrelevant. Qed.
+Print Assumptions C11_forwarded_id_irrelevant.
